@@ -196,6 +196,18 @@ func c02(w *core.World, r *core.Report) {
 			skip, tr := core.PathQuery{Avoid: func(in ssa.Instruction) bool { return in == ssa.Instruction(main) }}.Reaches(next.Block(), core.InstrIndex(next)+1, func(in ssa.Instruction) bool { return in == ssa.Instruction(next) })
 			r.Check(core.CanFollow(main, next), "PERSIST-ALL", core.Site(low, "loop continues after persisting"), w.InstrPos(main), "after persisting one intent the loop must be able to reach the next one (no break)")
 			r.Check(!skip, "PERSIST-ALL", core.Site(low, "no intent skipped"), w.InstrPos(main), fmt.Sprintf("a path through the loop body reaches the next iteration without persisting the intent (blocks %v)", tr))
+			// every success return that is neither the dry-run nor the validation-failed exit comes after the persist loop
+			dry := core.Param(low, "dryRun")
+			for _, ret := range core.Returns(low) {
+				ev := errorOperand(ret)
+				if ev == nil || !core.IsNilConst(ev) {
+					continue
+				}
+				if core.GuardedByBoolCall(ret, true, kHasErrors) || (dry != nil && core.GuardedByValue(ret, dry, true)) {
+					continue
+				}
+				r.Check(core.InstrBefore(rg, ret), "PERSIST-ALL", core.Site(low, "success return after the persist loop"), w.InstrPos(ret), "a successful, non-dry-run transaction returns only after the per-intent writes to the intended store (an accepted intent without device effect - shadowed, or deleted while shadowed - is still the owner's last accepted version)")
+			}
 		}
 	}
 
@@ -333,6 +345,10 @@ func ruleOldPrioDelete(w *core.World, r *core.Report, low *ssa.Function) {
 				sl := core.DataSlice(low, []ssa.Value{g.If.Cond})
 				for v := range sl.Values {
 					c, ok := v.(*ssa.Call)
+					if ok && core.CalleeIs(c, "tree.RootEntry.GetUpdatesForOwner", "tree.RootEntry.GetDeletesForOwner") {
+						bad = true // what the tree holds for the owner after the merge IS the new content
+						continue
+					}
 					if !ok || !core.CalleeIs(c, kTIGetUpdates, "datastore/types.TransactionIntent.GetPathSet") {
 						continue
 					}
@@ -546,6 +562,25 @@ func c05(w *core.World, r *core.Report) {
 		r.Check(okFlag, "ROLLBACK-REACH", core.Site(getRb, "isRollback=true"), w.Pos(getRb.Pos()), "the rollback transaction must not arm a rollback of itself")
 	}
 
+	// ---- OLD-PRIO-DELETE (shared with C01/C02): the rollback transaction re-runs the pipeline; intents the original
+	// transaction created come back as delete intents whose stored entries sit under the priority they were created with
+	ruleOldPrioDelete(w, r, low)
+
+	// ---- DETACHED-CONTEXT
+	r.Rule("DETACHED-CONTEXT", 1, "the rollback started by the expired timer runs with a context that is not tied to any request: the ctx argument of TransactionManager.Rollback in Transaction.rollback originates from context.Background()/TODO() (possibly wrapped by context.With*), never from a field, parameter or the registering request's context - that one is cancelled as soon as the TransactionSet RPC returns, long before the timeout.")
+	if tr := w.Func("pkg/datastore/types", "Transaction", "rollback"); tr != nil {
+		n := 0
+		for _, c := range core.CallsTo(tr, "datastore/types.TransactionManager.Rollback") {
+			n++
+			a := core.CallArgs(c)
+			ok := len(a) >= 1 && detachedContext(a[0], 0)
+			r.Check(ok, "DETACHED-CONTEXT", core.Site(tr, "Rollback ctx"), w.InstrPos(c), "the timer-driven rollback must not run in a request context")
+		}
+		if n == 0 {
+			r.Undecided("DETACHED-CONTEXT", core.Site(tr, "Rollback"), w.Pos(tr.Pos()), "Transaction.rollback does not call TransactionManager.Rollback")
+		}
+	}
+
 	// ---- CANCEL-KEEPS-ON-FAILURE
 	r.Rule("CANCEL-OUTCOME", 2, "in TransactionManager.Cancel the transaction is unregistered (CleanupTransaction / slot cleared) only on the err==nil outcome of the rollback, and a nil error is returned only after the rollback succeeded: a failed cancel keeps the transaction (and its record of the old intents) so that it can be retried.")
 	{
@@ -681,4 +716,31 @@ func c09(w *core.World, r *core.Report) {
 		}
 	}
 	_ = token.ADD
+}
+
+// detachedContext: every origin of v is context.Background()/TODO() or a context.With* of such a context.
+func detachedContext(v ssa.Value, depth int) bool {
+	if depth > 4 {
+		return false
+	}
+	os := core.Origins(v)
+	if len(os) == 0 {
+		return false
+	}
+	for _, o := range os {
+		c, ok := o.(*ssa.Call)
+		if !ok {
+			return false
+		}
+		switch k := core.CalleeKey(c); {
+		case k == "context.Background" || k == "context.TODO":
+		case strings.HasPrefix(k, "context.With") && len(c.Call.Args) > 0:
+			if !detachedContext(c.Call.Args[0], depth+1) {
+				return false
+			}
+		default:
+			return false
+		}
+	}
+	return true
 }
